@@ -316,10 +316,29 @@ func c26Coverage(r *lib.Run, cfg *lib.Cfg, gy *lib.Goyang, structs []reachedStru
 	for _, mn := range gy.Names {
 		walk(gy.Tops[mn], nil)
 	}
+	sort.Slice(all, func(i, j int) bool { return len(all[i].names) < len(all[j].names) })
+	uncovered := map[string]bool{}
 	for _, g := range all {
 		p := strings.Join(g.names, "/")
 		cover := fieldPaths[p]
 		kind := entryKind(g.e)
+		skipChild := false
+		for k := 1; k < len(g.names); k++ {
+			if uncovered[strings.Join(g.names[:k], "/")] {
+				skipChild = true
+			}
+		}
+		if skipChild {
+			continue // reported through its uncovered ancestor
+		}
+		if len(cover) == 0 {
+			uncovered[p] = true
+		}
+		if len(cover) == 0 && len(g.names) == 1 && g.e.Parent != nil && (g.e.Parent.IsCase() || g.e.Parent.IsChoice()) {
+			r.Violate("schema-node-not-covered", "top-level-choice", fmt.Sprintf("%s (%s) sits in a choice at the top of a module and is covered by no field of the fake root", p, kind),
+				map[string]interface{}{"cfg": cfg.Name, "schema_path": p, "kind": kind, "yang": cfg.YangFiles})
+			continue
+		}
 		gw := map[string]interface{}{"cfg": cfg.Name, "schema_path": p, "kind": kind, "fields": cover, "yang": cfg.YangFiles}
 		r.Hit("coverage-checked")
 		if !cfg.Compressed {
